@@ -104,18 +104,38 @@ def tlc_failed(res):
 
 # ---------------------------------------------------------------------------------------- driver
 
+class TimeoutBudget:
+    """a transform that hangs on many inputs must not make the check itself run for hours: after `limit`
+    timeouts the remaining cases are recorded as `skipped` (never a verdict) — the timeouts already seen are
+    reported"""
+    def __init__(self, limit):
+        self.limit, self.count, self.lock = limit, 0, threading.Lock()
+
+    def hit(self):
+        with self.lock:
+            self.count += 1
+
+    def exhausted(self):
+        return self.count >= self.limit
+
+
 class DriverShard(threading.Thread):
-    def __init__(self, binary, cases, results, case_timeout=20.0, stack_mb=8):
+    def __init__(self, binary, cases, results, case_timeout=20.0, stack_mb=8, budget=None):
         super().__init__()
         self.binary, self.cases, self.results = binary, cases, results
         self.case_timeout = case_timeout
         self.stack_mb = stack_mb
+        self.budget = budget
         self.err = None
 
     def run(self):
         try:
             todo = list(self.cases)
             while todo:
+                if self.budget is not None and self.budget.exhausted():
+                    for c in todo:
+                        self.results[c["case"]] = {"case": c["case"], "term": {"k": "skipped", "phase": "timeout-budget"}}
+                    break
                 todo = self.run_some(todo)
         except Exception as e:  # tool error
             self.err = e
@@ -147,6 +167,8 @@ class DriverShard(threading.Thread):
                 if cur is None:
                     raise ToolError("driver made no progress before the first case")
                 self.results[cur] = {"case": cur, "term": {"k": "timeout", "phase": phase or "?"}}
+                if self.budget is not None:
+                    self.budget.hit()
                 return todo[idx[cur] + 1:]
             chunk = os.read(fd, 1 << 16)
             if not chunk:
@@ -178,10 +200,11 @@ class DriverShard(threading.Thread):
         return []
 
 
-def run_driver(binary, rendered, nproc=NPROC, case_timeout=20.0, stack_mb=8):
+def run_driver(binary, rendered, nproc=NPROC, case_timeout=20.0, stack_mb=8, max_timeouts=6):
     results = {}
+    budget = TimeoutBudget(max_timeouts)
     shards = [rendered[i::nproc] for i in range(nproc)]
-    ts = [DriverShard(binary, s, results, case_timeout, stack_mb) for s in shards if s]
+    ts = [DriverShard(binary, s, results, case_timeout, stack_mb, budget) for s in shards if s]
     for t in ts:
         t.start()
     for t in ts:
